@@ -79,8 +79,47 @@ func (p *Prog) resolveAliases() {
 		}
 		return ""
 	}
+	// an identifier that still exists under its pinned name keeps it: the role search only finds what was renamed
+	exists := func(k string) bool {
+		kind, key, _ := strings.Cut(k, ":")
+		typ, mem, hasMem := strings.Cut(key, ".")
+		switch kind {
+		case "type":
+			return named(key) != nil
+		case "func":
+			_, ok := sc.Lookup(key).(*types.Func)
+			return ok
+		case "method", "field":
+			if !hasMem {
+				return false
+			}
+			if al := a["type:"+typ]; al != "" {
+				typ = al
+			}
+			n := named(typ)
+			if n == nil {
+				return false
+			}
+			if kind == "method" {
+				for i := 0; i < n.NumMethods(); i++ {
+					if n.Method(i).Name() == mem {
+						return true
+					}
+				}
+				return false
+			}
+			if st := structOf(n); st != nil {
+				for i := 0; i < st.NumFields(); i++ {
+					if st.Field(i).Name() == mem {
+						return true
+					}
+				}
+			}
+		}
+		return false
+	}
 	set := func(k, v string) {
-		if v != "" {
+		if v != "" && !exists(k) {
 			a[k] = v
 		}
 	}
